@@ -65,10 +65,10 @@ var words = []string{"", "a", "ab", "abc", "foo", "bar", "baz", "foobar", "web-1
 var keyWords = []string{"a", "b", "c", "foo", "bar", "x", "name", "tags", "meta", "n", "k1", "k2", "k3", "co:lon", "with space", "ünï", "0", "Name", "NAME", "Foo", "FOO", "Env", "ENV", "env", "9", "10", "1a", "2", "4a", "sl/ash", "ti~lde", "dot.ted", "", "a b", "-"}
 
 // DatumGens lists the constructors for Evaluate data.
-var DatumGens = []string{"doc", "docptr", "json", "jsonnum", "tmap:int", "tmap:slice", "tmap:map", "tmap:ptr", "tmap:any", "tmap:inner", "tmap:ikey", "tmap:nkey", "longlist", "odd", "odd"}
+var DatumGens = []string{"doc", "docptr", "json", "jsonnum", "tmap:int", "tmap:slice", "tmap:map", "tmap:ptr", "tmap:any", "tmap:inner", "tmap:ikey", "tmap:nkey", "longlist", "odd", "odd", "bytesdoc", "bytesdoc"}
 
 // CollGens lists the constructors for Filter.Execute containers.
-var CollGens = []string{"coll:slice", "coll:ptrslice", "coll:array", "coll:arrayptr", "coll:arrayany", "coll:arraymap", "coll:map", "coll:intmap", "coll:named", "coll:namedmap", "coll:jsonlist", "coll:anys", "coll:nilslice", "coll:empty", "coll:anymap", "coll:ptrmap", "coll:scalar"}
+var CollGens = []string{"coll:slice", "coll:ptrslice", "coll:array", "coll:arrayptr", "coll:arrayany", "coll:arraymap", "coll:map", "coll:intmap", "coll:named", "coll:namedmap", "coll:jsonlist", "coll:anys", "coll:nilslice", "coll:empty", "coll:anymap", "coll:ptrmap", "coll:scalar", "coll:huge"}
 
 func Build(d DatumSpec) interface{} {
 	r := plan.New(plan.Mix(d.Seed, 0xda7a))
@@ -82,6 +82,14 @@ func Build(d DatumSpec) interface{} {
 		v = genJSON(r, 0, false)
 	case d.Gen == "jsonnum":
 		v = genJSON(r, 0, true)
+	case d.Gen == "bytesdoc":
+		// a small record whose text lives in byte buffers the caller reuses
+		v = map[string]interface{}{
+			"buf":  []byte(r.Pick([]string{"DEBUG all fine.", "ERROR disk full", "WARN  low space ", "status=200 ok  ", "status=404 gone"})),
+			"raw":  json.RawMessage(r.Pick([]string{`{"a":1}`, `{"b":2}`, `[1,2,3]`})),
+			"line": []byte(r.Pick(words) + " " + r.Pick(words)),
+			"n":    r.Range(0, 3),
+		}
 	case d.Gen == "odd":
 		v = genOdd(r)
 	case d.Gen == "nil":
@@ -952,7 +960,10 @@ func bump(v reflect.Value, r *plan.Rand) {
 	switch v.Kind() {
 	case reflect.Int, reflect.Int8, reflect.Int16, reflect.Int32, reflect.Int64:
 		v.SetInt(int64(r.Range(-3, 12)))
-	case reflect.Uint, reflect.Uint8, reflect.Uint16, reflect.Uint32, reflect.Uint64:
+	case reflect.Uint8:
+		// bytes stay printable text
+		v.SetUint(uint64("abcdefghijklmnopqrstuvwxyz0123456789 =-_"[r.Intn(40)]))
+	case reflect.Uint, reflect.Uint16, reflect.Uint32, reflect.Uint64:
 		v.SetUint(uint64(r.Intn(50)))
 	case reflect.Float32, reflect.Float64:
 		v.SetFloat(float64(r.Range(-20, 50)) / 4)
